@@ -20,6 +20,7 @@ def r6(ctx):
 
 
 RULES = {
+    "C08.RL": lambda ctx: __import__("rules.common", fromlist=["x"]).loop_exit_rule(ctx, "C08.RL", {'types::SourceMapIndex::flatten': 0, 'decoder::decode_index': 0}),
     "C08.R1": lambda ctx: bldrules.index_lookup(ctx, "C08.R1"),
     "C08.R2": lambda ctx: bldrules.flatten_translation(ctx, "C08.R2"),
     "C08.R2b": lambda ctx: bldrules.add_with_id(ctx, "C08.R2b"),
